@@ -55,7 +55,7 @@ CONSTANTS
   Sym,         \* byte values
   MaxLen,      \* bound: bytes offered per direction
   MaxChunk,    \* chunk sizes 1..MaxChunk
-  Tasks,       \* subset of {"R", "W", "S"}
+  Tasks,       \* subset of {"R", "W", "S", "A", "B"}
   AdOf,        \* [Tasks -> {1,2}]: the end whose adapter the task uses
   Kinds,       \* [Tasks -> SUBSET {"read","write","readable","writable"}]
   Join,        \* TRUE: the tasks are the branches of ONE task (polled in the order R, W; one waker)
@@ -63,6 +63,7 @@ CONSTANTS
   MaxOps,      \* bound: operations per task
   MaxPeerOps,  \* bound: peer operations
   MaxAdapt,    \* bound: adapt_io calls per fd
+  MaxAbandon,  \* bound: pending operations that are abandoned (the future is dropped: select!/timeout, now_or_never, cancel)
   WithFile,    \* TRUE: adapt_io of a regular file (registration fails with EPERM) is in the alphabet
   Variants     \* deliberately wrong behaviours (non-vacuity), {} = the code as it is in /repo:
                \*   "drop_keeps_fd"          kill() does not delete the fd from the poller (before f0ccfc5)
@@ -77,6 +78,8 @@ CONSTANTS
                \*   "single_waker"           before 0061559: ONE waker slot and ONE interest for both directions (register_waker
                \*                            overwrites them), readiness() consumes last_readiness entirely, process_events
                \*                            overwrites last_readiness, wakes the one waker and never renews the registration
+               \*   "waker_not_replaced"     register_waker returns early when the direction already has a waker stored ("spare the
+               \*                            syscall on re-polls") and so keeps the STALE waker of an abandoned wait
                \*   "no_rearm_after_event"   process_events returns Continue although a waker is still stored
                \*   "readiness_consumed_whole"  take_readiness(x) clears both bits: a branch that is polled first and is not ready
                \*                            steals the readiness of the other one, for ever (busy loop)
@@ -87,7 +90,7 @@ Fds   == {1, 2, 3}
 Other(e) == 3 - e
 Bits  == {"r", "w"}
 Min(a, b) == IF a < b THEN a ELSE b
-TaskOrder == <<"R", "W", "S">>
+TaskOrder == <<"R", "W", "S", "A", "B">>
 NoOp  == [k |-> "none", n |-> 0]
 NoWk  == [r |-> "none", w |-> "none"]
 Old   == "single_waker" \in Variants
@@ -107,7 +110,9 @@ WaitBit(k) == IF k \in {"read", "readable"} THEN "r" ELSE "w"
 (*  ep[f]     epoll entry of fd f: reg, int, armed                         *)
 (*  occ       loop slots held by adapters                                  *)
 (*  ts/cur/nops/wait  per task: new | runnable | parked | done, current    *)
-(*            operation, operations started, bit a parked task waits for    *)
+(*            operation, operations started, bit a parked task waits for;    *)
+(*            abn[t]: the task was woken from outside to abandon its        *)
+(*            pending operation (its waker stays in the adapter)            *)
 (*  runq      the executor's queue of runnables;  pinged  its eventfd       *)
 (*  pc        idle | batch | exec;  batch = events still to process         *)
 (*            (0 = the executor, e = adapter of end e);  evrd[e] = the       *)
@@ -121,7 +126,7 @@ Init0(nb0) ==
    ep |-> [f \in Fds |-> [reg |-> FALSE, int |-> {}, armed |-> FALSE]],
    occ |-> 0, nadapt |-> [f \in Fds |-> 0],
    ts |-> [t \in Tasks |-> "new"], cur |-> [t \in Tasks |-> NoOp], nops |-> [t \in Tasks |-> 0],
-   wait |-> [t \in Tasks |-> "none"],
+   wait |-> [t \in Tasks |-> "none"], abn |-> [t \in Tasks |-> FALSE], nabn |-> 0,
    runq |-> <<>>, pinged |-> FALSE, batch |-> <<>>, evrd |-> [f \in Fds |-> {}], pc |-> "idle",
    npeer |-> 0]
 
@@ -191,7 +196,8 @@ RegisterWaker(s, e, x, w) ==
               ELSE IF Old THEN {x} ELSE Awaited(wk2)
       skip == "rearm_skipped" \in Variants /\ s.ad[e].rint = int2
       s1   == [s EXCEPT !.ad[e].interest = int2, !.ad[e].wk = wk2]
-  IN IF skip \/ ~s1.ep[e].reg THEN s1
+  IN IF "waker_not_replaced" \in Variants /\ s.ad[e].wk[x] # "none" THEN s
+     ELSE IF skip \/ ~s1.ep[e].reg THEN s1
      ELSE [s1 EXCEPT !.ep[e] = [reg |-> TRUE, int |-> int2, armed |-> TRUE], !.ad[e].rint = int2]
 
 \* IoDispatcher::take_readiness (:270): only the bit asked for is consumed
@@ -296,6 +302,19 @@ DoSpawn(s, T) ==
   [s EXCEPT !.ts = [t \in Tasks |-> IF t \in T THEN "runnable" ELSE @[t]],
             !.runq = @ \o SelectSeq(TaskOrder, LAMBDA t : t \in T), !.pinged = TRUE]
 
+\* a parked task is woken from outside the adapter (a timeout fired, select! chose another branch, the task was told to
+\* stop) and, when it is polled, DROPS the future of its pending operation: the operation is over without a result, the
+\* waker it stored stays in the adapter until an event of that direction takes it or another wait replaces it
+DoAbandon(s, t) ==
+  [s EXCEPT !.ts[t] = "runnable", !.wait[t] = "none", !.abn[t] = TRUE, !.nabn = @ + 1,
+            !.runq = Append(@, t), !.pinged = TRUE]
+Abandoned(s, t) == [s EXCEPT !.cur[t] = NoOp, !.abn[t] = FALSE]
+
+\* one waker per direction: two tasks must not wait for the SAME direction of one adapter at the same time
+\* (the borrow discipline: a direction is used by one future at a time)
+BitBusy(s, t, x) ==
+  \E u \in Tasks \ {t} : AdOf[u] = AdOf[t] /\ s.cur[u] # NoOp /\ WaitBit(s.cur[u].k) = x
+
 ------------------------------------------------------------------------------
 (* the peer (the driver acting on the end that is not adapted) *)
 PeerWrite(s, p, syms) == [KWrite(s, p, syms) EXCEPT !.npeer = @ + 1]
@@ -392,6 +411,11 @@ Spawn(T) ==
   /\ st' = DoSpawn(st, T)
   /\ Ctl([op |-> "spawn", t |-> IF Join THEN "J" ELSE CHOOSE t \in T : TRUE]) /\ UNCHANGED script
 
+Abandon(t) ==
+  /\ Idle /\ Budget /\ ~Join /\ st.ts[t] = "parked" /\ st.nabn < MaxAbandon
+  /\ st' = DoAbandon(st, t)
+  /\ Ctl([op |-> "abandon", t |-> t]) /\ UNCHANGED script
+
 Dispatch ==
   /\ Idle /\ Budget /\ (Guided => EvSet(st) # {})
   /\ \E order \in Perms(EvSet(st)) : st' = DispStart(st, order)
@@ -433,10 +457,13 @@ PollStep(t, s0) ==      \* s0: the state after the operation was (possibly) star
 TaskStep ==
   /\ st.pc = "exec" /\ st.runq # <<>>
   /\ LET t == Head(st.runq) IN
-     \/ /\ st.cur[t] # NoOp                                      \* re-poll of the operation that was Pending
+     \/ /\ st.abn[t]                                             \* the pending operation is dropped
+        /\ st' = Abandoned(st, t) /\ UNCHANGED script
+     \/ /\ ~st.abn[t] /\ st.cur[t] # NoOp                        \* re-poll of the operation that was Pending
         /\ PollStep(t, st) /\ UNCHANGED script
      \/ /\ st.cur[t] = NoOp /\ st.nops[t] < MaxOps               \* next operation of the script
         /\ \E o \in OpsOf(t) :
+             /\ ~BitBusy(st, t, WaitBit(o.k))
              /\ o.k = "write" => Len(st.sent[Other(AdOf[t])]) + o.n <= MaxLen
              /\ PollStep(t, OpStart(st, t, o))
              /\ script' = Scr(t, o)
@@ -447,6 +474,7 @@ TaskStep ==
 CtlNext ==
   \/ \E f \in Fds : Adapt(f) \/ AdaptAgain(f) \/ DropAd(f, "drop") \/ DropAd(f, "into_inner")
   \/ IF Join THEN Spawn(Tasks) ELSE \E t \in Tasks : Spawn({t})
+  \/ \E t \in Tasks : Abandon(t)
   \/ Dispatch
   \/ \E p \in Ends : PeerW(p) \/ PeerR(p) \/ PeerC(p)
 Next == CtlNext \/ StepIo \/ StepExec \/ TaskStep
